@@ -115,8 +115,8 @@ impl Property for BranchProp {
     }
     fn cases(&self, tier: Tier) -> u64 {
         match tier {
-            Tier::Quick => 500_000,
-            Tier::Thorough => 8_000_000,
+            Tier::Quick => 1_500_000,
+            Tier::Thorough => 15_000_000,
         }
     }
     fn floors(&self, _tier: Tier) -> Vec<(&'static str, f64)> {
